@@ -41,6 +41,13 @@ def sites_of(cr, n):
     return out, off
 
 
+# the reserved instruction names of SHELXL: a line that starts with one of them is an instruction, any other line an atom
+SHELX_INSTRUCTIONS = set("""ABIN ACTA AFIX ANIS ANSC ANSR BASF BIND BLOC BOND BUMP CELL CGLS CHIV CONF CONN DAMP DANG DEFS DELU DFIX DISP
+EADP END EQIV EXTI EXYZ FEND FLAT FMAP FRAG FREE FVAR GRID HFIX HKLF HTAB ISOR LATT LAUE LIST L.S. MERG MORE MOVE MPLA NCSY NEUT OMIT
+PART PLAN PRIG REM RESI RIGU RTAB SADI SAME SFAC SHEL SIMU SIZE SPEC STIR SUMP SWAT SYMM TEMP TITL TWIN TWST UNIT WGHT WIGL WPDB
+XNPD ZERR""".split())
+
+
 def parse_res_text(text, n):
     """Tokenise the .res text the library wrote. Numbers are read exactly from their decimal spelling; each SYMM text is
     shipped as bytes and read by the specification's own reader (SymopText!ParseTextB)."""
@@ -65,8 +72,10 @@ def parse_res_text(text, n):
                 x["symm"].append({"text": t, "bytes": [ord(ch) if ord(ch) < 256 else 63 for ch in t]})
             elif key == "SFAC":
                 x["sfac"] = toks[1:]
-            elif key == "END":
+            elif key == "END" or toks[0].upper() == "END":
                 break
+            elif toks[0].upper() in SHELX_INSTRUCTIONS:
+                continue                       # REM, HKLF, UNIT, ZERR ...: instructions that say nothing about the structure
             else:
                 p = []
                 for tk in toks[2:5]:
